@@ -1897,8 +1897,15 @@ impl<Front: SocketHandler + std::fmt::Debug, L: ListenerHandler + L7ListenerHand
                 if !matches!(stream.state, StreamState::Linked(_) | StreamState::Unlinked) {
                     continue;
                 }
+                // Only a request that was parsed to its end can be considered
+                // half-closed: `is_completed()` alone means "everything received
+                // so far was forwarded", which is also true of a request whose
+                // body is still in flight. Marking such a stream would turn the
+                // client's next DATA frame into a connection error and cut the
+                // request the drain window is there to let finish.
                 if stream.front.consumed
                     && stream.front.storage.is_empty()
+                    && stream.front.is_terminated()
                     && stream.front.is_completed()
                 {
                     stream.front_received_end_of_stream = true;
